@@ -1,6 +1,6 @@
 #!/bin/sh
 # import confirmed wave-10 seeds; verdict.txt from the run_seed.sh logs (fallback until seed_verdicts.sh has run)
-for d in /tmp/seedout/*_10; do
+for d in /tmp/seedout/*_1[0-9]; do
   id=$(basename $d); p=${id%%_*}
   [ -f $d/confirm.json ] || { echo "$id: not confirmed yet"; continue; }
   python3 /verif/tools/import_seed.py $d || continue
